@@ -8,7 +8,7 @@ code reads).  ``boundary`` is an unbounded symbolic integer >= 0."""
 from engine.ctx import exc_label
 
 FUNCTIONS = ['bycycle.cyclepoints.extrema.find_extrema', 'bycycle.cyclepoints.zerox.find_flank_zerox']
-BOUNDS = {'quick': 'padded length N+2p <= 8 (N 3..6 with p in {0,1,2}); every raw signal, every filter output, every boundary >= 0; first_extrema in {peak,trough,None,invalid}; filter length via n_cycles / n_seconds / default',
+BOUNDS = {'quick': 'padded length N+2p <= 8 (N 3..6 with p in {0,1,2}); every raw signal, every filter output, every boundary >= 0; first_extrema in {peak,trough,None,invalid}; filter length via n_cycles / n_seconds / default; int16 / uint8 signals (every value of the type) with N <= 5',
           'thorough': 'padded length N+2p <= 10; otherwise as quick'}
 OUTSIDE = 'longer signals; numerical behaviour of the real FIR filter (replaced by an arbitrary output); signals whose filtered version has no rising or no decaying zero-crossing (dummy-crossing path, outside the statement)'
 STUBS = ['neurodsp.filt.filter_signal -> arbitrary real array of len(sig); ValueError if fs <= 0',
@@ -29,6 +29,11 @@ def configs(tier):
                     if L == 0 and fk != 'default':
                         continue
                     out.append({'n': n, 'L': L, 'first': first, 'fk': fk})
+    # recordings stored as machine integers (raw ADC counts, saturation at the type's limits included)
+    for dt in ('int16', 'uint8'):
+        for L in (0, 1):
+            for n in ((4, 5) if tier == 'quick' else (4, 5, 6)):
+                out.append({'n': n, 'L': L, 'first': 'peak', 'fk': 'default', 'dtype': dt})
     return out
 
 
@@ -89,7 +94,11 @@ def run(ctx, cfg):
     p = (L + 1) // 2
     M = n + 2 * p
     ex = ctx.mod('bycycle.cyclepoints.extrema')
-    x = [ctx.real('x%d' % i) for i in range(n)]
+    if cfg.get('dtype'):
+        x, sig = ctx.int_signal(['x%d' % i for i in range(n)], cfg['dtype'])
+    else:
+        x = [ctx.real('x%d' % i) for i in range(n)]
+        sig = np.array(list(x), dtype=float)
     boundary = ctx.integer('boundary')
     ctx.assume(boundary >= 0)
     ctx.assume(boundary <= n + 1)      # larger values drop every extremum alike
@@ -99,7 +108,6 @@ def run(ctx, cfg):
         kwargs['filter_kwargs'] = {'n_cycles': 3}
     elif fk == 'n_seconds':
         kwargs['filter_kwargs'] = {'n_seconds': 0.5}
-    sig = np.array(list(x), dtype=float)
     raised = None
     try:
         peaks, troughs = ex.find_extrema(sig, 1000.0, (8.0, 12.0), boundary=boundary, first_extrema=first,
